@@ -408,6 +408,17 @@ ExpectRoundTrip(c, via) ==
 InvalidCases == {[name |-> n, version |-> v, api |-> api] :
                    n \in NameClasses, v \in VersionClasses, api \in {"v1", "v2"}} \ {[name |-> "ok", version |-> "ok", api |-> a] : a \in {"v1", "v2"}}
 
+\* one `helm package` (ONE action.Package value) for a LIST of charts: every chart is packaged with ITS OWN
+\* version / appVersion unless the --version / --app-version flag is given, which then applies to all of them
+PkgVerTokens == {"va", "vb"}
+PkgAppTokens == {"aa", "ab"}
+PkgListCases ==
+  UNION {{[vers |-> vs, apps |-> as, vflag |-> vf, aflag |-> af, route |-> rt] :
+            vs \in [1..n -> PkgVerTokens], as \in [1..n -> PkgAppTokens], vf \in BOOLEAN, af \in BOOLEAN,
+            rt \in {"action", "cmd"}} : n \in 2..3}
+ExpPkgVersion(c, j) == IF c.vflag THEN "vflag" ELSE c.vers[j]
+ExpPkgApp(c, j)     == IF c.aflag THEN "aflag" ELSE c.apps[j]
+
 (* ---- ignore rules: the documented syntax (pkg/ignore/doc.go) ------------ *)
 \* a node of the chart directory: path = sequence of names, dir = is a directory
 \* names used by the fixed directory universe; Ext gives the extension class of a name
